@@ -387,7 +387,7 @@ class C16(SchedProp):
                 out.append({"what": f"Template.matches returned {impl_out['matches']} but the row spaces are "
                                     f"{'equal' if exact else 'different'} (exact rational arithmetic)"
                                     + (" [|entries| >= 1000]" if big else ""),
-                            "finding": "D27" if big else None})
+                            "finding": ("D27" if exact else "D27b") if big else None})
         elif kind == "check":
             tn = len(case["t"]["bounds"])
             if impl_out["holds"] and tn > 0 and case["s"]["ops"]:
